@@ -102,6 +102,9 @@ func (w *World) setup() {
 		if w.o.Mode == "adv" && f == 0 {
 			f = 1
 		}
+		if wide && f > 1 {
+			f = 1 // n^2 broadcast copies per complaint storm: keep the wide worlds cheap
+		}
 	}
 	w.dealer = c.Choose(w.n, "dealer")
 	w.nodes = make([]*Node, w.n)
@@ -112,13 +115,13 @@ func (w *World) setup() {
 	}
 	// choose Byzantine indices anywhere; for single-dealer protocols make the dealer Byzantine in half of the runs
 	left := f
-	if f > 0 && w.proto != JF && (c.Bool(1, 2, "byzdealer") || w.o.Mode == "adv") {
+	if f > 0 && w.proto != JF && !wide && (c.Bool(1, 2, "byzdealer") || w.o.Mode == "adv") {
 		w.nodes[w.dealer].byz = true
 		left--
 	}
 	for left > 0 {
 		i := c.Choose(w.n, "byzidx")
-		for w.nodes[i].byz {
+		for w.nodes[i].byz || (wide && i == w.dealer) {
 			i = (i + 1) % w.n
 		}
 		w.nodes[i].byz = true
